@@ -93,6 +93,23 @@ func rfBuild(root string, preferIndex bool) string {
 	}
 }
 
+// rfLoadOnly: index-preferred Load and a walk of the dependency graph, no build.
+func rfLoadOnly(root string) (outcome string) {
+	defer func() {
+		if p := recover(); p != nil {
+			outcome = fmt.Sprintf("PANIC %v", p)
+		}
+	}()
+	proj, err := dawn.Load(root, &dawn.LoadOptions{Events: dawn.DiscardEvents, PreferIndex: true})
+	if err != nil {
+		return "load-error"
+	}
+	for _, t := range proj.Targets() {
+		_ = t.Dependencies()
+	}
+	return "ok"
+}
+
 func rfBuildInner(root string, preferIndex bool) (outcome string) {
 	defer func() {
 		if p := recover(); p != nil {
@@ -103,6 +120,10 @@ func rfBuildInner(root string, preferIndex bool) (outcome string) {
 	proj, err := dawn.Load(root, &dawn.LoadOptions{Events: ev, PreferIndex: preferIndex})
 	if err != nil {
 		return "load-error"
+	}
+	// what the command line does after every load (list, graph, gc, repl): walk the dependency graph
+	for _, t := range proj.Targets() {
+		_ = t.Dependencies()
 	}
 	l, _ := label.Parse("//:t")
 	if err := proj.Run(l, nil); err != nil {
@@ -408,6 +429,17 @@ func recordFaults(r *vlib.Run) {
 		}
 		os.WriteFile(filepath.Join(root, c.file), m, 0o644)
 		pi := strings.HasSuffix(c.file, "index.json")
+		if !pi && !rfHung {
+			// the damaged record as the index-preferred commands see it (list, graph, gc, repl
+			// --index-only): load through the index and walk the dependency graph
+			root2 := filepath.Join(r.Scratch, "rf2")
+			os.RemoveAll(root2)
+			copyDir(root, root2)
+			if out2 := rfLoadOnly(root2); strings.HasPrefix(out2, "PANIC") {
+				r.Violation("C15:record-corruption-panic:index-preferred-load", fmt.Sprintf("%s of %s at %d (%s): index-preferred Load + Dependencies: %s", c.kind, c.file, c.pos, c.edit, out2), map[string]any{"file": c.file, "kind": c.kind, "pos": c.pos, "value": c.val, "corrupted": string(m)})
+			}
+			r.Add("record_faults_index_preferred_loads", 1)
+		}
 		out := rfBuild(root, pi)
 		r.Add("record_faults", 1)
 		r.Outcome("record_outcomes", c.kind+":"+strings.SplitN(out, " ", 2)[0])
